@@ -24,7 +24,7 @@ func loadPropNotes() map[string]PropNote {
 }
 
 func writeEvidence(prop, tier string, seed int, wall float64, total, discharged int, byBackend map[string]int, solverSecs float64,
-	samples []map[string]interface{}, funcs, known, undecided []string, havoc int, libs, ctrs, assumed []string, covers, coverFail, violations int) {
+	samples []map[string]interface{}, funcs, known, undecided []string, havoc int, libs, ctrs, assumed []string, covers, coverFail, violations int, bounded []map[string]interface{}) {
 	notes := loadPropNotes()[prop]
 	trusted := []string{
 		"govc: SSA -> SMT encoding and contract resolution (this tool)",
@@ -71,6 +71,7 @@ func writeEvidence(prop, tier string, seed int, wall float64, total, discharged 
 			"covers_checked":           covers,
 			"covers_vacuous":           coverFail,
 			"undecided_clauses":        notes.Undecided,
+			"bounded_checks":           bounded,
 		},
 	}
 	os.MkdirAll(filepath.Join(verifDir, "evidence"), 0o755)
